@@ -152,6 +152,11 @@ func (f *File) isDotImport(path string) bool {
 		// the "C" pseudo-package is always referenced as C
 		return false
 	}
+	if def, ok := f.imports[path]; ok && def.name != "" && def.name != "_" {
+		// once a path has been registered, the registered name decides - a later
+		// hint must not change how the path is referenced
+		return def.name == "." && def.alias
+	}
 	if id, ok := f.hints[path]; ok {
 		return id.name == "." && id.alias
 	}
